@@ -106,4 +106,14 @@ CHECKS = {
         "real": ["three complete nodes (config_factory), async-raft-ext 0.6.3 (elections, replication, membership change), FileStore, ConfigRoute + RaftRouteRequestHandler + handle_route, InvokerHandler dispatch"],
         "stub": STUB + ["transport: RaftClusterRequestSender::send_request -> simulated network -> target InvokerHandler::handle (tonic/h2/TCP absent; 20-line prelude of RequestServerImpl::request re-implemented)"],
     },
+    "C08": {
+        "level": "exploration",
+        "quick": {"runs": 800, "wall_s": 150},
+        "thorough": {"runs": 30000, "wall_s": 1800},
+        "rule": "leader with a swarm-chosen compaction threshold (5..30) receives a seeded workload of threshold+5..90 writes (configs, namespaces, users) so that its log is compacted; a second complete node either (scenario 0) is started only then, or (scenario 1) was a member and was isolated or killed after a few writes; it is then connected and a client keeps writing (one write per 100 simulated ms, at once while the needs-snapshot loop is detected) until the follower has the leader's log; oracle: within 60 simulated s, without restarting it, the follower's full observation (as C01) equals the leader's, its stored membership equals the leader's, the equality holds after a clean restart of the follower, and a later write is served by it within 30 s; non-trivial = the follower really received a snapshot (get_current_snapshot on the follower); distinct = distinct event-log hash",
+        "probes": ["snapshot_installed_on_follower", "installed_snapshot_not_loaded", "installed_snapshot_not_loaded_permanent", "follower_restarted", "needs_snapshot_loop_detected"],
+        "assumptions": ["no disk latency in these runs (during async-raft's needs-snapshot loop no simulated time passes, a compaction waiting for a disk timer would never finish)", "runs in which the recorded defect 'installed snapshot not loaded' is detected by its signature do not evaluate its consequences"],
+        "real": ["two complete nodes, async-raft-ext InstallSnapshot streaming through RaftSnapshotRequestHandler, FileStore::create_snapshot / finalize_snapshot_installation, StateApplyManager::apply_snapshot"],
+        "stub": STUB + ["transport as C06"],
+    },
 }
